@@ -310,6 +310,10 @@ pub fn steered_server_keys(report: &Report, tier: Tier, seed: u64) {
                 quotients.insert(q.to_le_padded::<8>()[0]);
                 let v_le = v.to_le_padded::<32>();
                 let ver = SrpVerifier::from_database_values(ns("A"), v_le, [0u8; 32]);
+                if !taken_as_is(Pinned::ServerKey, b) {
+                    NOT_OWNED.fetch_add(1, Ordering::Relaxed);
+                    continue;
+                }
                 let (r, used, _log) = with_script(b, move || *ver.into_proof().server_public_key());
                 cases += 1;
                 let replay = json!({"target_B": t.to_hex_be(), "target_kind": name, "verifier_le": hex(&v_le), "b_le": hex(b), "quotient_of_3v_plus_g^b_by_N": q.to_hex_be()});
@@ -401,6 +405,10 @@ pub fn announced_groups(report: &Report, tier: Tier, seed: u64) {
                         Ok(k) => k,
                         Err(_) => continue,
                     };
+                    if !taken_as_is(Pinned::ClientKey, a) {
+                        NOT_OWNED.fetch_add(1, Ordering::Relaxed);
+                        continue;
+                    }
                     let (r, _, _) = with_script(a, || {
                         let c = SrpClientChallenge::new(ns(user), ns(pass), g, m_le, bk, salt);
                         let (ap, m1) = (*c.client_public_key(), *c.client_proof());
